@@ -52,7 +52,7 @@ class Prop(SeqProp):
         for _ in range(n):
             ops = []
             for _ in range(rng.randint(3, 10)):
-                k = rng.choice(["argsort", "subseq", "search", "cmp", "batch", "batchiter", "batchnew", "batchlen"])
+                k = rng.choice(["argsort", "subseq", "search", "cmp", "batch", "batchiter", "batchiter2", "batchnew", "batchlen"])
                 alpha = rng.choice([2, 3])
                 seq = lambda m: [rng.randrange(alpha) for _ in range(rng.randint(0, m))]
                 s = lambda xs: " ".join(map(str, xs))
@@ -75,6 +75,11 @@ class Prop(SeqProp):
                 elif k == "batchiter":
                     data = list(range(10, 10 + rng.randint(0, 12)))
                     ops.append(f"batchiter {rng.randint(1, 7)} {s(data)}".rstrip())
+                elif k == "batchiter2":
+                    # a tuple of iterables of different lengths: iteration stops with the shortest, in lock-step
+                    xs = list(range(10, 10 + rng.randint(0, 9)))
+                    ys = list(range(50, 50 + rng.choice([len(xs), rng.randint(0, 9)])))
+                    ops.append(f"batchiter2 {rng.randint(1, 5)} {s(xs)} | {s(ys)}".replace("  ", " "))
                 elif k == "batchnew":
                     lens = [rng.randint(0, 3) for _ in range(rng.randint(1, 3))]
                     if rng.random() < 0.6:
@@ -97,6 +102,9 @@ class Prop(SeqProp):
             for b in range(1, 8):
                 ops.append(f"batchlen {n} {b}")
                 ops.append(f"batchiter {b} {s(range(n))}".rstrip())
+                if b <= 4 and n <= 6:
+                    for m in range(0, 7):
+                        ops.append(f"batchiter2 {b} {s(range(n))} | {s(range(50, 50 + m))}".replace("  ", " "))
                 for i in range(0, n // b + 3):
                     ops.append(f"batch {b} {i} {s(range(n))}".rstrip())
         for keys in itertools.product(range(3), repeat=5):
@@ -149,6 +157,17 @@ class Prop(SeqProp):
                         out.append("ok")
                     else:
                         g.BatcherIter(data, int(w[1])); out.append("ok")
+                elif k == "batchiter2":
+                    j = w.index("|")
+                    xs, ys = [int(x) for x in w[2:j]], [int(x) for x in w[j + 1:]]
+                    t = list(g.BatcherIter((iter(xs), iter(ys)), int(w[1])))
+                    line = "lists2 " + ";".join(s(p[0]) + "/" + s(p[1]) for p in t)
+                    # a third member must stay in lock-step as well (lists this time)
+                    t3 = list(g.BatcherIter((xs, ys, [x * 2 for x in xs]), int(w[1])))
+                    if [(list(p[0]), list(p[1])) for p in t3] != [(list(p[0]), list(p[1])) for p in t] or \
+                            any(len(p) != 3 or list(p[2]) != [x * 2 for x in p[0]] for p in t3) or any(len(p) != 2 for p in t):
+                        line += " tuple-mismatch"
+                    out.append(line)
                 elif k == "batchiter":
                     data = [int(x) for x in w[2:]]
                     r = list(g.BatcherIter(iter(data), int(w[1])))
@@ -207,6 +226,11 @@ class Prop(SeqProp):
             elif k == "batchnew":
                 lens = [int(x) for x in w[2:]]
                 exp = "err ValueError" if (len(set(lens)) > 1 or int(w[1]) <= 0) else "ok"
+            elif k == "batchiter2":
+                j = w.index("|")
+                xs, ys = [int(x) for x in w[2:j]], [int(x) for x in w[j + 1:]]
+                b = int(w[1]); m = min(len(xs), len(ys))
+                exp = "lists2 " + ";".join(s(xs[q:min(q + b, m)]) + "/" + s(ys[q:min(q + b, m)]) for q in range(0, m, b))
             elif k == "batchiter":
                 data = [int(x) for x in w[2:]]; b = int(w[1])
                 exp = "lists " + ";".join(s(data[j:j + b]) for j in range(0, len(data), b))
